@@ -260,7 +260,8 @@ theorem handleWrite_rr (a : Acc) (seq : Nat) (hs : List ObjHdr) :
     RR (∃ h ∈ hs, ClearsRestart h) a (handleWrite a seq hs).1 := by
   unfold handleWrite
   dsimp only
-  exact RR.foldl2 _ ClearsRestart (fun p h => handleWriteHeader_rr p.1 h) hs (a, 0)
+  exact RR.foldl2 (fun (p : Acc × Nat) h => ((handleWriteHeader p.1 h).1, p.2 ||| (handleWriteHeader p.1 h).2))
+    ClearsRestart (fun p h => handleWriteHeader_rr p.1 h) hs (a, 0)
 
 theorem RR.ofFrameP {κ} {K : OState → κ} {P : OOut → Prop} {C : Prop} {a b : Acc} (h : Frame K P a b)
     (hk : ∀ s s', K s' = K s → s'.restart = s.restart) (hc : ¬ P clearOut) : RR C a b := by
